@@ -133,6 +133,19 @@ _SYN = (
     " I --- {thm} --:------ {ctl} 2309 003 {zz}{tmp}",
     "RP --- {ctl} {gwy} --:------ 0004 022 {zz}00{name}",
     " I --- {ctl} --:------ {ctl} 0418 022 00{ft}00{li}B00{dc}00000000{ts}FFFF7000{devhex}",
+    # unusual-but-decodable shapes: arrays where a single value is usual, single elements where an array is usual, other addressees
+    " I --- {ctl} --:------ {ctl} 3150 004 {zz}{pct}{zz2}{pct2}",
+    " I --- {ctl} --:------ {ctl} 0009 006 {dom}{b}FF{zz}{b}FF",
+    " I --- {ctl} --:------ {ctl} 000A 006 {zz}{fl}{tmp}{tmp2}",
+    " I --- {ctl} --:------ {ctl} 000A 012 {zz}{fl}{tmp}{tmp2}{zz2}{fl}{tmp}{tmp2}",
+    " I --- {ufc} {thm} --:------ 22C9 008 {u}{tmp}7FFF010103",
+    " I --- {ufc} {ctl} --:------ 22C9 006 {u}{tmp}{tmp2}01",
+    " I --- {ufc} --:------ {ufc} 22C9 012 {u}{tmp}{tmp2}01{u2}{tmp}{tmp2}01",
+    " I --- {ufc} {ctl} --:------ 3150 004 {u}{pct}{u2}{pct2}",
+    " I --- {ctl} --:------ {ctl} 30C9 003 {zz}{tmp}",
+    " I --- {ctl} --:------ {ctl} 2309 003 {zz}{tmp}",
+    " I --- {ctl} --:------ {ctl} 1260 003 00{tmp}",
+    " I --- {ctl} --:------ {ctl} 12B0 003 {zz}{win}",
     # binding traffic (a neighbour's kit, or this system's): offers, accepts, long and 1-byte confirms, device info
     " I --- {hv1} --:------ {hv1} 1FC9 012 00{bc}{hvx}001FC9{hvx}",
     " I --- {hv1} 63:262142 --:------ 1FC9 012 00{bc}{hvx}001FC9{hvx}",
@@ -205,7 +218,7 @@ def history(draw: Any, max_len: int = 120, min_len: int = 10, synthetic: bool = 
     h = frames[start:start + n]
     muts = []
     for _ in range(draw(st.integers(0, 6))):
-        kind = draw(st.sampled_from(("delete", "duplicate", "swap", "move-block", "splice", "corpus-lines", "field", "field", "field") + (("synthetic", "synthetic") if synthetic else ())))
+        kind = draw(st.sampled_from(("delete", "duplicate", "swap", "move-block", "splice", "corpus-lines", "field", "field", "field") + (("synthetic", "synthetic", "array-pair") if synthetic else ())))
         if not h:
             break
         i = draw(st.integers(0, len(h) - 1))
@@ -233,6 +246,18 @@ def history(draw: Any, max_len: int = 120, min_len: int = 10, synthetic: bool = 
             cf = corpus_frames()
             writes = tuple(f for f in cf if f[:2] == " W")  # writes are rare in logs, and have rules of their own (C16)
             h[i:i] = [draw(st.sampled_from(writes if writes and draw(st.integers(0, 2)) == 0 else cf)) for _ in range(draw(st.integers(1, 6)))]
+        elif kind == "array-pair":
+            # two adjacent zone-config broadcasts of the controller: whole array / part of an array / a single element, in either order
+            # (the gateway merges the second into the first when it looks like a continuation - dispatcher.detect_array_fragment)
+            ctl = next((f[7:16] for f in h if f[7:9] == "01"), None) or next((f[17:26] for f in h if f[17:19] == "01"), "01:145038")
+
+            def _arr(zs: list[int], hi: int) -> str:
+                pl = "".join(f"{z:02X}1001F4{hi:04X}" for z in zs)
+                return f" I --- {ctl} --:------ {ctl} 000A {len(pl) // 2:03d} {pl}"
+
+            a = sorted(draw(st.lists(st.integers(0, 11), min_size=1, max_size=8, unique=True)))
+            b = sorted(draw(st.lists(st.integers(0, 11), min_size=1, max_size=8, unique=True)))
+            h[i:i] = [_arr(a, draw(st.sampled_from((0x0DAC, 0x0834)))), _arr(b, draw(st.sampled_from((0x0DAC, 0x0BB8))))]
         elif kind == "synthetic":  # entity-directed frames for this system's controller: every zone class / domain / role, extreme values
             ctl = next((f[7:16] for f in h if f[7:9] == "01"), None) or next((f[17:26] for f in h if f[17:19] == "01"), "01:145038")
             h[i:i] = draw(synthetic_frames(ctl, draw(st.integers(3, 25))))
